@@ -1,6 +1,7 @@
 import Model.Numscript.Spec
 import Model.Numscript.VM
 import Lemmas.NumResolve
+import Lemmas.NumRun
 /-! C12 — no script, variable map or ledger state can crash the engine.
 Stage 1: at the level of `Spec` (the source-level interpreter the compiler+VM are differentially tied to).
 `Spec.run` is a total Lean function — every recursion in it (`evalSource`/`evalSources`,
@@ -66,5 +67,50 @@ theorem resolve_never_panics (P : Script) (prog : Program) (hc : compile P = .ok
   · intro R hr
     rw [hr] at h1
     exact (resolveBalances_ok prog R store h1.1 h1.2 hwn).1
+
+/-! #### the VM never panics
+
+The FULL statement:
+```
+theorem vm_never_panics (P : Script) (prog : Program) (hc : compile P = .ok prog) (hne : P.stmts ≠ [])
+    (req : Request) (store : Store) : (VM.run prog req store).isPanic = false
+```
+(`P.stmts ≠ []` is a fact of the grammar; `Execute` indexes `Instructions[0]`.)  Proved below for the fragment
+`Script.frag` (see `C08.compile_correct_partial`), for EVERY variable map and EVERY store content: none of the
+explicit panic outcomes of the VM model (typed pop of the wrong type, pop on an empty stack, `BUMP` out of
+range, `SAVE`/`repay` through a missing balance map, nil `Amount`, "stack not empty after execution",
+unsupported value in `GetTxMetaJSON`) is reachable.  Missing: the typing argument for source / destination
+allotments and ordered destinations (`MAKE_ALLOTMENT`, `ALLOC`, `BUMP n`, `kept`) — observed panic-free by the
+differential (model and real VM agree on panic / no panic on every generated case). -/
+theorem vm_never_panics_partial (P : Script) (prog : Program) (hc : compile P = .ok prog) (hfr : P.frag)
+    (req : Request) (store : Store) : (VM.run prog req store).isPanic = false := by
+  cases hv : VM.setVarsFromJSON prog req.vars with
+  | error e => simp [VM.run, hv, VM.Outcome.isPanic]
+  | ok vars =>
+    obtain ⟨h1, h2⟩ := resolve_never_panics P prog hc req store vars hv
+    cases hr : VM.resolveResources prog vars store with
+    | error e => simp [VM.run, hv, hr, VM.Outcome.isPanic]
+    | panic k => rw [hr] at h1; simp [VM.Outcome.isPanic] at h1
+    | ok R =>
+      have h3 := h2 R hr
+      cases hb : VM.resolveBalances prog R store with
+      | error e => simp [VM.run, hv, hr, hb, VM.Outcome.isPanic]
+      | panic k => rw [hb] at h3; simp [VM.Outcome.isPanic] at h3
+      | ok r =>
+        obtain ⟨vals, B⟩ := r
+        obtain ⟨cx, hE, hok⟩ := run_setup hc hv hr hb
+        have hrel : Rel B.accts B.keys ({ balances := B } : VM.Machine) { st := { bal := B.bal, postings := [] } } :=
+          ⟨rfl, rfl, rfl, rfl, rfl, rfl, rfl, hok⟩
+        have hex := execute_correct hc hfr cx hE _ _ hrel
+        simp only [VM.run, hv, hr, hb]
+        cases hev : evalStmts (envOf prog.resources vals) P.stmts { st := { bal := B.bal, postings := [] } } with
+        | error er =>
+          rw [hev] at hex
+          simp [hex, VM.Outcome.isPanic]
+        | ok F =>
+          rw [hev] at hex
+          obtain ⟨m', hx, hr'⟩ := hex
+          simp only [hx, hr'.txMeta, hr'.acctMeta, renderTxMeta_map, renderAcctMeta_map]
+          split <;> rfl
 
 end C12
